@@ -59,6 +59,12 @@ where
             return Err(InvalidView);
         }
 
+        // The root object is read from the end of the buffer, a buffer shorter than
+        // the archived type cannot contain it.
+        if data_bytes.len() < mem::size_of::<T::Archived>() {
+            return Err(InvalidView);
+        }
+
         let view = unsafe { rkyv::archived_root::<T>(data_bytes) };
 
         Ok(Self { data, view })
